@@ -99,6 +99,8 @@ def equal(a, b):
 
 def call_plan(kind, rng):
     """(method name, args, kwargs) for a random cached method of the given object kind."""
+    if kind.startswith('jumps'):
+        kind = 'jumps'
     if kind == 'metrics':
         opts = [
             ('speed', (), {}),
@@ -148,6 +150,9 @@ class Template:
         else:
             raise Skip('no template with jumps')
         self.sys = sys_
+        from gemdat.transitions import Transitions
+
+        self.shared_tr = Transitions(trajectory=self.tr0.trajectory, diff_trajectory=self.tr0.diff_trajectory, sites=self.tr0.sites, events=self.tr0.events.copy(), states=self.tr0.states.copy(), inner_states=self.tr0.inner_states.copy())
 
     def make(self, kind):
         from gemdat.jumps import Jumps
@@ -159,6 +164,17 @@ class Template:
         tr = Transitions(trajectory=self.tr0.trajectory, diff_trajectory=self.tr0.diff_trajectory, sites=self.tr0.sites, events=self.tr0.events.copy(), states=self.tr0.states.copy(), inner_states=self.tr0.inner_states.copy())
         if kind == 'transitions':
             return tr
+        if kind == 'jumps_alt':
+            # another Jumps object built on the SAME Transitions object as 'jumps_shared', with its own
+            # conversion method (it reports only every second jump)
+            from gemdat.jumps import _generic_transitions_to_jumps as conv
+
+            def every_second(transitions, minimal_residence=0):
+                return conv(transitions, minimal_residence=minimal_residence).iloc[::2].reset_index(drop=True)
+
+            return Jumps(self.shared_tr, conversion_method=every_second)
+        if kind == 'jumps_shared':
+            return Jumps(self.shared_tr)
         return Jumps(tr)
 
 
@@ -227,7 +243,7 @@ def run_unit(unit, rng, ctx):
         reuses = 0
         def do_call(ent):
             obj, kind, k, _ = ent
-            if kind == 'jumps' and rng.uniform() < 0.15:
+            if kind.startswith('jumps') and rng.uniform() < 0.15:
                 # a Collective obtained from a cached call is itself an object with cached methods
                 coll = invoke(obj, 'collective', (), {})
                 ent[3] = True
@@ -267,7 +283,7 @@ def run_unit(unit, rng, ctx):
                 return
             if survivors_explained_by_k6(o, called, surviving_jumps):
                 ctx.known_finding(K6, f'{kind} object still alive {when} and gc.collect(): held only through Collective.jumps of the cached collective() result')
-                if kind == 'jumps':
+                if kind.startswith('jumps'):
                     surviving_jumps.append(o)
             else:
                 refs = [type(r).__name__ for r in gc.get_referrers(o) if type(r).__name__ != 'frame']
@@ -298,7 +314,7 @@ def run_unit(unit, rng, ctx):
             for step in range(n_steps):
                 u = rng.uniform()
                 if not pool or u < 0.18:
-                    kind = str(rng.choice(['metrics', 'transitions', 'jumps']))
+                    kind = str(rng.choice(['metrics', 'transitions', 'jumps', 'jumps_shared', 'jumps_alt']))
                     k = int(rng.integers(len(templates)))
                     pool.append([templates[k].make(kind), kind, k, False])
                     hist.append(f'create {kind}#{k}')
@@ -332,7 +348,7 @@ def run_unit(unit, rng, ctx):
             pool.clear()
             gc.collect()
             # Jumps first, so that surviving Jumps can explain their Transitions
-            for r, kind, called in sorted(refs, key=lambda x: x[1] != 'jumps'):
+            for r, kind, called in sorted(refs, key=lambda x: not x[1].startswith('jumps')):
                 ctx.decided()
                 judge_survivor(r, kind, called, 'at the end of the history after every reference was dropped')
         finally:
